@@ -193,7 +193,9 @@ def _r30f(chk, repo) -> None:
             n += 1
             flushes = [w for w in ast.walk(l) if isinstance(w, ast.While) and stack in {x.id for x in ast.walk(w.test) if isinstance(x, ast.Name)}
                        and any(isinstance(c, ast.Call) and last_attr(c) == "pop" and isinstance(c.func.value, ast.Name) and c.func.value.id == stack for c in ast.walk(w))]
-            ok = bool(flushes) and any(cfg.dominates(w, st) for w in flushes)
+            if not flushes:
+                raise AnalysisError(f"R30f: no flush loop over `{stack}` found in the slicer's patch loop (moved into a helper?); re-confirm the anchor by hand")
+            ok = any(cfg.dominates(w, st) for w in flushes)
             chk.require(
                 ok, "R30f", st,
                 f"the slicer compares the patch with the head of `{stack}` (and pops it on equality) before the source-only slices that start before the patch have been flushed: the head "
